@@ -288,5 +288,6 @@ def run_groups(groups, repo, prop, tier, only=None):
         "Kani build uses --no-default-features (core only; `alloc` where a harness says so): the arithmetic under contract has no feature-gated logic",
         "mode rel = CARGO_PROFILE_DEV_DEBUG_ASSERTIONS=false (production semantics of ranged integers), mode dbg = debug assertions on",
         "64-bit little-endian target (Kani default)",
+        "reference functions of contracts/kani/spec.rs equal the Verus specs of lib/greg.vrs: proved by unit kspec",
     ]
     return res
